@@ -808,7 +808,7 @@ def source_tie(ctx):
             if not ok:
                 bad.append((st, msg))
         defs = defs + "\n" + qdefs
-    ctx.obligation("tie:pinned statements of esutil/random.py (%d functions)" % len(c19_translate.PINS), not pins, "; ".join(pins))
+    ctx.obligation("tie:pinned statements of esutil/random.py and coords.atbound (%d functions)" % len(c19_translate.PINS), not pins, "; ".join(pins))
     for pn in pins:
         bad.append(("source text the hand model ModelQ.v was written from has changed: " + pn, ""))
     lemmas = lemmas + qlem
@@ -854,10 +854,13 @@ TRUSTED = [
 
 
 def run(ctx, replay=None):
-    ctx.rule = ("geometry: every point returned by the real randcap/randsphere for given deviates (stub generators replaying "
+    ctx.rule = ("source tie: formula chains of randsphere/randcap/rotate/interplin re-translated from the source and proved "
+                "equal to the hand model (reflexivity), numpy-level statements of random.py pinned.  geometry: every point "
+                "returned by the real randcap/randsphere for given deviates (stub generators replaying "
                 "them, or seeded real generators with twin-derived deviates) is certified by generated Coq lemmas over R "
-                "(property on the float output + correspondence with the model); samplers/indices: verdict terms over exact "
-                "rationals.  non-trivial: cap with rad > 0 and u > 0 (point differs from the centre), box of non-zero extent, "
+                "(property on the float output incl. ranges [0,360]x[-90,90] + correspondence with the model; a failed property "
+                "certificate counts as a failing input only when its negation is proved); samplers/indices: verdict terms "
+                "over exact rationals.  non-trivial: cap with rad > 0 and u > 0 (point differs from the centre), box of non-zero extent, "
                 "sampler with >= 3 grid points and >= 2 deviates, covariance >= 2x2, nrand >= 2 and imax >= 2; families "
                 "(poles, seam, tiny radius, antipode, nodes, zero-width) counted separately; distinct by canonical JSON.")
     ctx.trusted = TRUSTED
